@@ -347,6 +347,10 @@ impl DOPRI5 {
                 err += (k4[i] / sk) * (k4[i] / sk);
             }
             err = (err / n as f64).sqrt();
+            // A candidate state that is not finite is never accepted (its infinite scale would hide the error)
+            if y1.iter().any(|v| !v.is_finite()) {
+                err = Float::INFINITY;
+            }
 
             // Computation of hnew
             fac11 = err.powf(expo1);
